@@ -1022,7 +1022,12 @@ impl SQLExpression for BinaryOperator {
     fn associativity(&self) -> Associativity {
         use BinaryOperator::*;
         match self {
-            Minus | Divide | Modulo => Associativity::Left,
+            // `Multiply` shares its strength with `/` and `%`, which do not
+            // associate with it (`a * (b % c)` is not `a * b % c`), and chained
+            // comparisons are not associative at all (`a = (b = c)`).
+            Minus | Divide | Modulo | Multiply | Eq | NotEq | Gt | Lt | GtEq | LtEq => {
+                Associativity::Left
+            }
             _ => Associativity::Both,
         }
     }
